@@ -846,4 +846,12 @@ def corpus_chunks():
         ("dot", (("KEY", "/", "dq"),), None, ("KEY", "a.b", "sq")),     # pop() rebuilds "/" : excluded dot text
         ("dot", (("KEY", "/", "dq"),), None, ("KEY", "a", None)),       # pop() cuts the text: "/" in quotes restored
         ("slash", (), ("slash", ()), ("KEY", "a", None)),               # root shown under the dot separator is "/"
+        # round gapA: tails that carry their own demarcation (C08_appended_parse, C08_append_pop_all_partial)
+        ("dot", (k,), None, ("INDEX", 0)),                                                                      # x.[0]: cut
+        ("slash", (k,), None, ("SLICE", "1:2")),
+        ("slash", (k,), None, ("SEARCH", True, "EQUALS", "full name", "it's", True, "dq", "/")),                # rebuilt
+        ("dot", (k,), None, ("SEARCH", False, "REGEX", "a", "x/y", False, None, "|")),                          # other delimiter: rebuilt
+        ("dot", (("COLL", "NONE", "a"),), None, ("COLL", "ADDITION", "b")),                                     # (a).+(b)
+        ("slash", (("COLL", "NONE", "a"),), None, ("COLL", "INTERSECTION", "b")),                               # /(a)/&(b): popped (b), text /(a)/&
+        ("dot", (("COLL", "NONE", "a"),), None, ("COLL", "INTERSECTION", "b")),
     ]]
